@@ -154,10 +154,36 @@ def EnumType.missingName (e : EnumType) : List Char :=
 
 def EnumType.sentinelLen (e : EnumType) : Option Nat := e.sentinel.map (·.1)
 
+/-- a user-written `FieldType` subclass (the documented extension point), of the shape the harness
+builds: own width bounds, a fixed alignment (centre included), free-text format modifiers (all but
+the `banned` ones are accepted), cell text = `tag + str(value)`, followed by `~modifier` if any -/
+structure CustomType where
+  minW : Nat
+  maxW : Nat
+  align : Align
+  tag : List Char
+  banned : List (List Char)
+  deriving DecidableEq, Repr
+
 inductive FType where
   | dflt
   | enum (e : EnumType)
+  | custom (c : CustomType)
   deriving DecidableEq, Repr
+
+/-- `field_type.min_width` (`FieldType.__init__` default unless the type says otherwise) -/
+def FType.minW : FType → Nat
+  | .custom c => c.minW
+  | _ => Gen.C12.dfltMinWidth
+
+/-- `field_type.max_width` -/
+def FType.maxW : FType → Nat
+  | .custom c => c.maxW
+  | _ => Gen.C12.dfltMaxWidth
+
+/-- desired text of a cell of a custom type -/
+def customText (c : CustomType) (m : Option (List Char)) (v : Val) : List Char :=
+  c.tag ++ v.text ++ (match m with | some x => '~' :: x | Option.none => [])
 
 /-- `RecordField` of a tuple record: `value_path = [(False, pos)]` -/
 structure Field where
@@ -199,6 +225,9 @@ def verifyModifier (ft : FType) (m : Option (List Char)) : Except Err Unit :=
   | .enum _ => match enumMod? m with
     | some _ => .ok ()
     | Option.none => .error .valueError
+  | .custom c => match m with
+    | some x => if c.banned.contains x then .error .valueError else .ok ()
+    | Option.none => .ok ()
 
 /-- `FieldType.make_desired_cell_ch_chunks(value, None, cp)` -/
 def dfltCell (v : Val) : Chunks × Align := ([plain v.text], v.align)
@@ -258,6 +287,7 @@ def cellOf (ft : FType) (m : Option (List Char)) (v : Val) : Except Err (Chunks 
   | .enum e => match enumMod? m with
     | some em => .ok (enumCell e em v)
     | Option.none => .error .valueError
+  | .custom c => .ok ([plain (customText c m v)], c.align)
 
 /-- `get_cell_text_len` of the column's type -/
 def cellLen (ft : FType) (m : Option (List Char)) (v : Val) : Except Err Nat :=
@@ -266,6 +296,7 @@ def cellLen (ft : FType) (m : Option (List Char)) (v : Val) : Except Err Nat :=
   | .enum e => match enumMod? m with
     | some em => .ok (enumLen e em v)
     | Option.none => .error .valueError
+  | .custom c => .ok (customText c m v).length
 
 /-- `RecordField.fetch_value(record)` for a tuple record -/
 def fetch (f : Field) (r : Record) : Except Err Val :=
